@@ -1,6 +1,7 @@
 package main
 
 import (
+	"go/token"
 	"encoding/json"
 	"fmt"
 	"go/ast"
@@ -61,6 +62,8 @@ func (fc *FnCtx) noteLocal(name string, T types.Type, role string) {
 		rec += " @" + role // loop-carried variable of that loop (a phi at its header)
 	} else if old := localsSeen[fn][name]; strings.Contains(old, " @") {
 		return // keep the more specific record
+	} else if k, n := typeOrdinal(fc.root().fn, name); k >= 0 {
+		rec += fmt.Sprintf(" #%d/%d", k, n) // k-th of n locals of that type, in declaration order
 	}
 	localsSeen[fn][name] = rec
 }
@@ -85,9 +88,27 @@ func saveLocals() {
 	os.WriteFile(localsFile(), append(data, '\n'), 0o644)
 }
 
-// debugLocals lists the named locals of f (through their DebugRefs) with their types.
+// debugLocals lists the named locals of f (through their DebugRefs) with their types; struct
+// field names (keys of composite literals also get debug references) are not locals.
 func debugLocals(f *ssa.Function) map[string]types.Type {
 	out := map[string]types.Type{}
+	for _, l := range orderedLocals(f) {
+		out[l.name] = l.T
+	}
+	return out
+}
+
+type localVar struct {
+	name string
+	T    types.Type
+	pos  token.Pos
+	parm bool
+}
+
+// orderedLocals: parameters and locals of f in order of first appearance.
+func orderedLocals(f *ssa.Function) []localVar {
+	seen := map[string]bool{}
+	var out []localVar
 	for _, b := range f.Blocks {
 		for _, in := range b.Instrs {
 			d, ok := in.(*ssa.DebugRef)
@@ -98,13 +119,44 @@ func debugLocals(f *ssa.Function) map[string]types.Type {
 			if !ok || d.Object() == nil {
 				continue
 			}
-			if _, isVar := d.Object().(*types.Var); !isVar {
+			v, isVar := d.Object().(*types.Var)
+			if !isVar || v.IsField() || seen[id.Name] {
 				continue
 			}
-			out[id.Name] = d.Object().Type()
+			seen[id.Name] = true
+			isParam := false
+			for _, p := range f.Params {
+				if p.Name() == id.Name {
+					isParam = true
+				}
+			}
+			out = append(out, localVar{id.Name, v.Type(), v.Pos(), isParam})
 		}
 	}
+	sort.SliceStable(out, func(i, j int) bool { return out[i].pos < out[j].pos })
 	return out
+}
+
+// typeOrdinal: name is the k-th of n non-parameter locals of its type (in declaration order).
+func typeOrdinal(f *ssa.Function, name string) (k, n int) {
+	ls := orderedLocals(f)
+	var T string
+	for _, l := range ls {
+		if l.name == name {
+			T = types.TypeString(l.T, nil)
+		}
+	}
+	k = -1
+	for _, l := range ls {
+		if l.parm || types.TypeString(l.T, nil) != T {
+			continue
+		}
+		if l.name == name {
+			k = n
+		}
+		n++
+	}
+	return k, n
 }
 
 // rebindLocal: name does not resolve in fn any more; return the unique other local of the
@@ -123,6 +175,9 @@ func (fc *FnCtx) rebindLocal(name string, li *loopInfo) (string, bool) {
 		return "", false // the name exists but is not in scope here: not a rename
 	}
 	want, role, _ := strings.Cut(rec[name], " @")
+	if role == "" {
+		want = rec[name]
+	}
 	var cands []string
 	if role != "" {
 		if li == nil || role != fmt.Sprintf("phi:loop%d", li.index) {
@@ -142,12 +197,26 @@ func (fc *FnCtx) rebindLocal(name string, li *loopInfo) (string, bool) {
 			}
 		}
 	} else {
-		for n, T := range locals {
-			if _, named := rec[n]; named {
-				continue // the contract refers to that local under its own name
+		ord := ""
+		want, ord, _ = strings.Cut(want, " #")
+		var same []string // non-parameter locals of the wanted type, in declaration order
+		for _, l := range orderedLocals(root.fn) {
+			if !l.parm && types.TypeString(l.T, nil) == want {
+				same = append(same, l.name)
 			}
-			if types.TypeString(T, nil) == want {
-				cands = append(cands, n)
+		}
+		var k, n int
+		if _, err := fmt.Sscanf(ord, "%d/%d", &k, &n); err == nil && n == len(same) && k < n {
+			// same number of locals of that type as on the pinned tree: the one in the same place
+			if _, named := rec[same[k]]; !named || same[k] == name {
+				cands = []string{same[k]}
+			}
+		}
+		if len(cands) == 0 {
+			for _, nm := range same {
+				if _, named := rec[nm]; !named {
+					cands = append(cands, nm)
+				}
 			}
 		}
 	}
